@@ -254,19 +254,20 @@ pub fn run(case: &Case) -> Outcome {
                 let _dg = DoneGuard(&states2, me);
                 states2.enter(me, 0, 100);
                 // wait until the waiter has published its call time (and its handle)
-                let mut backoff = 1_000u64;
-                loop {
-                    let t = call_at2[ai].load(Ordering::SeqCst);
-                    let ready = match &target {
-                        Target::Blocker(b) => b.lock().unwrap().is_some(),
-                        Target::Co(c) => c.lock().unwrap().is_some(),
-                        _ => true,
-                    };
-                    if t != 0 && (ready || !slot_needed) {
-                        break;
-                    }
-                    sleep_ns(backoff);
-                    backoff = (backoff * 2).min(1_000_000);
+                let ready = poll_until(
+                    || {
+                        let t = call_at2[ai].load(Ordering::SeqCst);
+                        let ready = match &target {
+                            Target::Blocker(b) => b.lock().unwrap().is_some(),
+                            Target::Co(c) => c.lock().unwrap().is_some(),
+                            _ => true,
+                        };
+                        t != 0 && (ready || !slot_needed)
+                    },
+                    10_000_000_000,
+                );
+                if !ready {
+                    return;
                 }
                 let at = call_at2[ai].load(Ordering::SeqCst) + e;
                 let now = sched::now_ns();
